@@ -365,6 +365,14 @@ def run_on(ctx, facts, tag):
     bodies = [b for b, _ in sync_work_bodies(facts)]
     c09.rule_r3(facts, _Retag(ctx, "C09.R3", "C19.R2b"), bodies)
     c09.rule_r4(facts, _Retag(ctx, "C09.R4", "C19.R2b"), bodies)
+    # "processes exactly min(..) steps per call" - and does not panic on the way: the C15 site rules (content- or tag-dependent
+    # index / arithmetic / unwrap sites must be guarded) restricted to the generated code
+    from . import c15
+    c15.rule_scope(facts, ctx, lambda b: b.from_derive, rule_id="C19.R4")
+    nscan = len([b for b in c15.scope_bodies(facts) if b.from_derive])
+    if nscan:
+        ctx.ok("C19.R4", "scanned:%s" % tag, "rustradio_macros/src/lib.rs",
+               "%d generated bodies (work() and its closures) scanned for content/tag-dependent panic sites" % nscan)
 
 
 class _Retag:
@@ -400,6 +408,7 @@ def run(ctx):
     ctx.floor("C19.R2", 36 * 6 + 18 * 6, "6 obligations x (36 family + 18 in-crate sync blocks)")
     ctx.floor("C19.R2b", 100, "early-return waits of generated work()")
     ctx.floor("C19.R3", 36 + 30, "generated eof()")
+    ctx.floor("C19.R4", 2, "generated code of the family and of the crate scanned (no panic-capable site today)")
     ctx.floor("C19.R1w", 2, "constructor output-order witnesses")
     ctx.explain("C19: the programs quantified over are a generated family (sync and sync_tag x 1..3 inputs x 1..3 outputs, distinct "
                 "element types, with and without default/into fields; compiled, never run) plus every derive(Block) user of the "
